@@ -53,16 +53,24 @@ def _models(ctx, jobs, workers):
         vlib.log(ctx.engines[-1])
 
 
+# a sample per case kind, preferring an informative one (regular matrix, non-zero determinants, non-trivial rotation)
+PREFER = {"sq": '"inv":[1', "lsq": '"reg":1', "mul": '"detab":1', "euler": '"den":65', "quat": '"tie":0', "axis": '"den":45'}
+
+
 def _first_of_kind(path, kinds):
-    found = {}
+    found, fallback = {}, {}
     with open(path) as f:
         for ln in f:
             for k in kinds:
-                if k not in found and ('"k":"%s"' % k) in ln:
+                if k in found or ('"k":"%s"' % k) not in ln:
+                    continue
+                if PREFER.get(k, "") in ln:
                     found[k] = ln.strip()[:600]
+                else:
+                    fallback.setdefault(k, ln.strip()[:600])
             if len(found) == len(kinds):
                 break
-    return [found[k] for k in kinds if k in found]
+    return [found.get(k, fallback.get(k)) for k in kinds if k in found or k in fallback]
 
 
 def run(ctx):
@@ -94,7 +102,7 @@ def run(ctx):
         samples += _first_of_kind(path, ["sq", "lsq"] if i == 0 else ["mul"])
         ctx.replay(rep, path, label="R/" + c.replace("MC_", ""), timeout=ctx.pick(900, 3000))
         os.unlink(path)
-    samples += _first_of_kind(rot, ["euler", "quat"])
+    samples += _first_of_kind(rot, ["euler", "quat", "axis"])
     ctx.replay(rep, rot, label="R/LinAlgRot", timeout=ctx.pick(900, 3000))
     os.unlink(rot)
     # 3. V: recorded executions over Z_32749 validated by TLC
@@ -102,7 +110,7 @@ def run(ctx):
     if files:
         with open(files[0]) as f:
             for ln in f:
-                if '"e":"solve"' in ln and len(ln) < 600:
+                if '"e":"solve"' in ln and '"dz":0' in ln and '"n":3,' in ln:
                     samples.append(ln.strip())
                     break
     ctx.validate_traces("Trace_LinAlg", "Trace_LinAlg", files, label="V/LinAlg", timeout=ctx.pick(900, 3000), xss="512m")
